@@ -1,5 +1,6 @@
 import Driver.Proto
 import GMModel.EMapGeo
+import GMModel.HeapX
 /-
   Driver.Heap — op `heapseq`: runs a whole operation sequence of the heap model (C18, C04) and
   reports, after every operation, its outcome and the observation of every handle whose
@@ -15,11 +16,18 @@ import GMModel.EMapGeo
     setattr i (pos <v3> | vel 0 | vel 1 <v3> | atomid n | gro_resid n | top_resid n | resname s | name s)
     build <ref> <tgt> <scale>        (ExchangeMap(env[ref], env[tgt], scale))
     call i | callother
+    setattrn i <name> <pyval> | getattrn i <name> | eq i j | mkatom i j <viaTop> | remove i j
+    add i j | radd0 i                                  (GMModel.HeapX)
+  <pyval> = int n | str s | vec <v3> | none | nats <n> k… | bool b | opaque
   <gro> = <resid> <resname> <name> <atomid> <x> <y> <z> (0 | 1 <vx> <vy> <vz>)
 
-  response: ok { <status> [E <n> {j a} ] [K <n> {key}] <nchanged> { <idx> <obs> } }
-  <obs> = M <name> <n> {<gro> <tname> <tresname> <tresid>} | R <n> {<gro>} | G <gro>
-        | A <gro> <tname> <tresname> <tresid> | X
+  response: ok { <status> [E <n> {j a} ] [K <n> {key}] [V <pyval>] <nchanged> { <idx> <obs> } }
+            (V: only after a successful getattrn / eq)
+  <obs> = M <name> <n> {<gro> <top>} | R <n> {<gro>} | G <gro> | A <gro> <top> | X
+        | MR <name> <ntop> {<top>} <nres> {<n> {<gro>}}     (a Molecule with fewer AtomGros than AtomTops)
+  <top> = <tname> <tresname> <tresid> <index> <nb> <b>…
+
+  op `atomroute <name>` : ok <tag of GMHeap.route name>
 -/
 
 open GMHeap
@@ -28,6 +36,7 @@ namespace DHeap
 
 inductive DOp where
   | h (o : Op Float)
+  | x (o : XOp Float)
   | build (r t : Nat) (scale : Float)
   | call (i : Nat)
   | callOther
@@ -64,6 +73,27 @@ def rdAttr : Rd (AttrVal Float) := do
   | "name" => do let s ← Rd.str; pure (.name s)
   | _ => throw s!"bad attr '{k}'"
 
+def rdPyVal : Rd (PyVal Float) := do
+  let k ← Rd.tok
+  match k with
+  | "int" => do let n ← Rd.int; pure (.int n)
+  | "str" => do let s ← Rd.str; pure (.str s)
+  | "vec" => do let v ← Rd.v3; pure (.vec v)
+  | "none" => pure .none
+  | "nats" => do let l ← Rd.listOf Rd.nat; pure (.nats l)
+  | "bool" => do let b ← Rd.bool; pure (.bool b)
+  | "opaque" => pure .opaque
+  | _ => throw s!"bad pyval '{k}'"
+
+def pyValTok : PyVal Float → String
+  | .int n => s!"int {n}"
+  | .str s => s!"str {Wr.str s}"
+  | .vec v => s!"vec {Wr.v3 v}"
+  | .none => "none"
+  | .nats l => "nats " ++ Wr.list toString l
+  | .bool b => s!"bool {Wr.bool b}"
+  | .opaque => "opaque"
+
 def rdOp : Rd DOp := do
   let k ← Rd.tok
   match k with
@@ -90,6 +120,13 @@ def rdOp : Rd DOp := do
   | "resnames_l" => do let i ← Rd.nat; let l ← Rd.listOf Rd.str; pure (.h (.setResnamesL i l))
   | "resnames_s" => do let i ← Rd.nat; let s ← Rd.str; pure (.h (.setResnamesS i s))
   | "setattr" => do let i ← Rd.nat; let v ← rdAttr; pure (.h (.setAttr i v))
+  | "setattrn" => do let i ← Rd.nat; let a ← Rd.str; let v ← rdPyVal; pure (.x (.setAttrN i a v))
+  | "getattrn" => do let i ← Rd.nat; let a ← Rd.str; pure (.x (.getAttrN i a))
+  | "eq" => do let i ← Rd.nat; let j ← Rd.nat; pure (.x (.eq i j))
+  | "mkatom" => do let i ← Rd.nat; let j ← Rd.nat; let b ← Rd.bool; pure (.x (.mkAtom i j b))
+  | "remove" => do let i ← Rd.nat; let j ← Rd.nat; pure (.x (.removeAtom i j))
+  | "add" => do let i ← Rd.nat; let j ← Rd.nat; pure (.x (.add i j))
+  | "radd0" => do let i ← Rd.nat; pure (.x (.radd0 i))
   | "build" => do let r ← Rd.nat; let t ← Rd.nat; let s ← Rd.float; pure (.build r t s)
   | "call" => do let i ← Rd.nat; pure (.call i)
   | "callother" => pure .callOther
@@ -101,7 +138,17 @@ def groTok (g : AtomGroC Float) : String :=
    | none => "0"
    | some v => s!"1 {Wr.v3 v}")
 
-def topTok (t : AtomTopC) : String := s!"{Wr.str t.name} {Wr.str t.resname} {t.resid}"
+def topTok (t : AtomTopC) : String :=
+  s!"{Wr.str t.name} {Wr.str t.resname} {t.resid} {t.index} " ++ Wr.list toString t.bonds
+
+/-- a Molecule whose residues hold fewer atoms than its topology (after `remove_atom`) -/
+def obsRagged (h : Heap Float) (v : MolView) (ts : List AtomTopC) : String :=
+  match v.parts.mapM (readGros h) with
+  | none => "X"
+  | some css =>
+    let a := ts.foldl (fun acc t => acc ++ " " ++ topTok t) s!"MR {Wr.str v.name} {ts.length}"
+    css.foldl (fun acc cs => cs.foldl (fun acc g => acc ++ " " ++ groTok g) (acc ++ s!" {cs.length}"))
+      (a ++ s!" {css.length}")
 
 def obs (h : Heap Float) : Obj → String
   | .mol m =>
@@ -110,7 +157,7 @@ def obs (h : Heap Float) : Obj → String
     | some v =>
       match readTops h v.tops, readGros h v.gros with
       | some ts, some gs =>
-        if ts.length ≠ gs.length then "X" else
+        if ts.length ≠ gs.length then obsRagged h v ts else
         (ts.zip gs).foldl (fun acc (t, g) => acc ++ " " ++ groTok g ++ " " ++ topTok t)
           s!"M {Wr.str v.name} {gs.length}"
       | _, _ => "X"
@@ -165,10 +212,19 @@ def deltas (s : DState) : DState × String :=
 
 def runOp (s : DState) : DOp → DState × String
   | .h o =>
-    let r := step s.heap s.env o
-    let s1 := { s with heap := r.heap, env := pushRet s.env r }
+    -- through the extended layer: identical to `step` unless the target is a Molecule that lost an
+    -- atom / a Residue that lost all of them
+    let r := stepX s.heap s.env (.base o)
+    let s1 := { s with heap := r.heap, env := pushRetX s.env r }
     let (s2, d) := deltas s1
     (s2, s!"{errTok r.err} {d}")
+  | .x o =>
+    let r := stepX s.heap s.env o
+    let s1 := { s with heap := r.heap, env := pushRetX s.env r }
+    let (s2, d) := deltas s1
+    match r.val with
+    | some v => (s2, s!"{errTok r.err} V {pyValTok v} {d}")
+    | none => (s2, s!"{errTok r.err} {d}")
   | .build r t scale =>
     match s.env[r]?, s.env[t]? with
     | some (.mol rm), some (.mol tm) =>
@@ -209,6 +265,10 @@ def handle : Handler
         out := out ++ " " ++ o
       Rd.done
       pure out
+  | "atomroute" => some do
+      let a ← Rd.str
+      Rd.done
+      pure s!"ok {(route a).tag}"
   | _ => none
 
 end DHeap
